@@ -182,24 +182,24 @@ Qed.
 Lemma existsb_forallb_neg : forall {A} (p : A -> bool) l, forallb (fun x => negb (p x)) l = true -> existsb p l = false.
 Proof. induction l as [|x l IH]; cbn; intros H; [reflexivity|]. apply andb_prop in H as [H1 H2]. apply negb_true_iff in H1. now rewrite H1, IH. Qed.
 
-Lemma no_mix_nobad : forall env m fx f ci co,
-  no_mix (mkcfg env m fx) = true -> nobad (mkcfg env m fx) ci co f = true.
+Lemma no_mix_nobad : forall pt env m fx f ci co,
+  no_mix (mkcfg_pt pt env m fx) = true -> nobad (mkcfg_pt pt env m fx) ci co f = true.
 Proof.
-  intros env m fx f. induction f as [|b k IHk r IHr]; intros ci co H; [reflexivity|].
+  intros pt env m fx f. induction f as [|b k IHk r IHr]; intros ci co H; [reflexivity|].
   rewrite nobad_node, IHk, IHr by assumption. rewrite !andb_true_r. apply negb_true_iff.
-  unfold badb, classify, opt_in_mode, no_mix, mkcfg, init_filters in *.
+  unfold badb, classify, opt_in_mode, no_mix, mkcfg_pt, init_filters_pt in *.
   destruct env as [raws|]; cbn [c_fmode c_filters] in *; [|reflexivity].
   apply orb_prop in H as [H|H].
   - pose proof (first_match_all_in _ (s_name (l_sym b)) H) as N.
-    destruct (first_match (map mk_filter raws) (s_name (l_sym b))) as [[|]|]; try reflexivity. now elim N.
+    destruct (first_match (map (mk_filter_pt pt) raws) (s_name (l_sym b))) as [[|]|]; try reflexivity. now elim N.
   - rewrite (existsb_forallb_neg _ _ H). cbn.
-    destruct (first_match (map mk_filter raws) (s_name (l_sym b))) as [[|]|]; reflexivity.
+    destruct (first_match (map (mk_filter_pt pt) raws) (s_name (l_sym b))) as [[|]|]; reflexivity.
 Qed.
 
 Corollary run_forest_no_mix : forall env m f,
   no_mix (mkcfg env m false) = true ->
   run (mkcfg env m false) st0 (events f) = (st0, hooks_of (select (mkcfg env m false) 0 0 0 f)).
-Proof. intros. apply run_forest_guarded. now apply no_mix_nobad. Qed.
+Proof. intros. apply run_forest_guarded. now apply (no_mix_nobad PRegex). Qed.
 
 (* ---------------------------------------------------------------- balance and pairing *)
 Lemma nest_app : forall a b d, nest d (a ++ b) = match nest d a with Some d' => nest d' b | None => None end.
@@ -427,6 +427,70 @@ Proof.
   - now rewrite IHk, IHr.
 Qed.
 
+(* -F and -N together (opt-in mode): the -F calls with everything below them, minus the -N calls
+   and everything below those - wherever they are *)
+Lemma fsel_in_region : forall c f ci, c_fmode c = Some FIn -> 0 < ci ->
+  fsel c ci 0 f = drop (is_kout c) f.
+Proof.
+  intros c f. induction f as [|b k IHk r IHr]; intros ci M H; [reflexivity|].
+  cbn [fsel drop]. unfold selected, filtering, opt_in_mode. rewrite M.
+  cbn [negb orb is_some_mode fmode_eqb].
+  destruct (classify c (l_sym b)) eqn:K;
+    assert (Ko : is_kout c (l_sym b) = match classify c (l_sym b) with KOut => true | _ => false end) by reflexivity;
+    rewrite K in Ko; rewrite Ko.
+  - assert (E : (ci >? 0) = true) by (zb; try reflexivity; lia). rewrite E. cbn.
+    now rewrite IHk, IHr.
+  - assert (E : (ci + 1 >? 0) = true) by (zb; try reflexivity; lia). rewrite E. cbn.
+    rewrite IHk by (try assumption; lia). now rewrite IHr.
+  - cbn. rewrite fsel_inside_out; [cbn; now apply IHr|unfold filtering; now rewrite M|lia].
+Qed.
+
+Theorem filters_mixed : forall c f, c_fmode c = Some FIn ->
+  fsel c 0 0 f = pick (is_kin c) (drop (is_kout c) f).
+Proof.
+  intros c f M. induction f as [|b k IHk r IHr]; [reflexivity|].
+  cbn [fsel drop]. unfold selected, filtering, opt_in_mode. rewrite M.
+  cbn [negb orb is_some_mode fmode_eqb].
+  destruct (classify c (l_sym b)) eqn:K;
+    assert (Ko : is_kout c (l_sym b) = match classify c (l_sym b) with KOut => true | _ => false end) by reflexivity;
+    assert (Ki : is_kin c (l_sym b) = match classify c (l_sym b) with KIn => true | _ => false end) by reflexivity;
+    rewrite K in Ko, Ki; rewrite Ko; cbn [pick l_sym]; try rewrite Ki.
+  - cbn. now rewrite IHk, IHr.
+  - cbn. rewrite fsel_in_region by (try assumption; lia). now rewrite IHr.
+  - cbn. rewrite fsel_inside_out; [cbn; exact IHr|unfold filtering; now rewrite M|lia].
+Qed.
+
+Theorem filters_out_general : forall c f ci, c_fmode c = Some FOut ->
+  fsel c ci 0 f = drop (is_kout c) f.
+Proof.
+  intros c f. induction f as [|b k IHk r IHr]; intros ci M; [reflexivity|].
+  cbn [fsel drop]. unfold selected, filtering, opt_in_mode. rewrite M.
+  cbn [negb orb is_some_mode fmode_eqb].
+  destruct (classify c (l_sym b)) eqn:K;
+    assert (Ko : is_kout c (l_sym b) = match classify c (l_sym b) with KOut => true | _ => false end) by reflexivity;
+    rewrite K in Ko; rewrite Ko; cbn.
+  - now rewrite IHk, IHr.
+  - now rewrite IHk, IHr.
+  - rewrite fsel_inside_out; [cbn; now apply IHr|unfold filtering; now rewrite M|lia].
+Qed.
+
+(* every call of the main module is traced, whatever the library-call mode *)
+Lemma main_only_fapp : forall a b, main_only (fapp a b) = fapp (main_only a) (main_only b).
+Proof.
+  induction a as [|x k IHk r IHr]; intros b; cbn [fapp main_only]; [reflexivity|].
+  rewrite IHr. destruct (s_lib (l_sym x)); cbn [fapp]; [now rewrite fapp_assoc|reflexivity].
+Qed.
+
+Theorem main_calls_all_traced : forall m f l, main_only (libprune m l f) = main_only f.
+Proof.
+  intros m f. induction f as [|b k IHk r IHr]; intros l; [reflexivity|].
+  cbn [libprune main_only]. destruct (s_lib (l_sym b)) eqn:L; cbn [negb orb andb].
+  - destruct (match m with LNone => false | LNested => true | LSingle => l =? 0 end).
+    + cbn [main_only]. rewrite L. now rewrite IHk, IHr.
+    + rewrite main_only_fapp. now rewrite IHk, IHr.
+  - cbn [main_only]. rewrite L. now rewrite IHk, IHr.
+Qed.
+
 (* ---------------------------------------------------------------- the defect of the pinned tree *)
 Definition str (l : list nat) : name := map N.of_nat l.
 Definition nm_a : name := [97]%N.  Definition nm_b : name := [98]%N.  Definition nm_c : name := [99]%N.
@@ -640,6 +704,140 @@ Theorem prefix_current : forall c f p q, c_fixed c = true -> events f = p ++ q -
   no_underflow (snd (run c st0 p)) = true.
 Proof. intros c f p q F E. apply (prefix_no_underflow c f p q); [now left|assumption]. Qed.
 
+(* ---------------------------------------------------------------- function level: the whole callback meets the specification *)
+(* the symbol a function gets when it is seen first *)
+Notation fsym := fsym_of.
+(* names determine symbols (two functions with one name have one library flag) *)
+Definition consistent (md : option name) (fns : list func) : Prop :=
+  forall f g s t, In f (dummy_func :: fns) -> In g (dummy_func :: fns) ->
+    fsym md f = Some s -> fsym md g = Some t -> s_name s = s_name t -> s = t.
+Definition canon (md : option name) (fns : list func) (tab : list sym) : Prop :=
+  forall s, In s tab -> forall g t, In g (dummy_func :: fns) -> fsym md g = Some t -> s_name t = s_name s -> t = s.
+Definition returns_only (rets : list fevent) : bool :=
+  forallb (fun e => match fe_kind e with Return => true | _ => false end) rets.
+
+Lemma fsym_some : forall md fn, exists s, fsym md fn = Some s.
+Proof. intros md [m q fl|m q]; unfold fsym; cbn; eauto. Qed.
+
+Lemma sym_of_exit : forall md fn (exc : bool),
+  sym_of_func md (if func_is_c fn then (if exc then CException else CReturn) else Return) fn = fsym md fn.
+Proof. intros md [m q fl|m q] exc; unfold fsym; cbn; [reflexivity|]. now destruct exc. Qed.
+
+Lemma nth_in_dummy : forall i (fns : list func), In (nth i fns dummy_func) (dummy_func :: fns).
+Proof. intros i fns. destruct (nth_in_or_default i fns dummy_func) as [H|H]; [now right|left; now rewrite H]. Qed.
+
+Lemma lookup_in : forall tab nm i a s, lookup tab nm i = Some (a, s) -> In s tab.
+Proof.
+  intros tab nm i a s H. apply lookup_resolve in H as (_ & H & _). eapply nth_error_In; eassumption.
+Qed.
+
+Lemma intern_canon : forall md fns tab g t tab' a t',
+  consistent md fns -> canon md fns tab -> In g (dummy_func :: fns) -> fsym md g = Some t ->
+  intern tab t = (tab', a, t') -> t' = t /\ canon md fns tab'.
+Proof.
+  intros md fns tab g t tab' a t' Co Ca Ig Fg H. unfold intern in H.
+  destruct (lookup tab (s_name t) 1%N) as [[a0 s0]|] eqn:L.
+  - inversion H; subst. pose proof (lookup_in _ _ _ _ _ L) as I.
+    apply lookup_resolve in L as (_ & _ & Nm).
+    split; [|assumption]. symmetry. eapply Ca; eauto.
+  - inversion H; subst. split; [reflexivity|].
+    intros s Is g' t0 Ig' Fg' Nm. apply in_app_or in Is as [Is|[<-|[]]].
+    + eapply Ca; eauto.
+    + exact (Co g' g t0 t' Ig' Ig Fg' Fg Nm).
+Qed.
+
+Lemma sym_events_ievents : forall md fns, consistent md fns -> forall f tab rest, canon md fns tab ->
+  exists tab1, canon md fns tab1 /\
+    sym_events md tab (ievents fns f ++ rest) =
+    (let '(t2, es) := sym_events md tab1 rest in (t2, events (iforest_syms md fns f) ++ es)).
+Proof.
+  intros md fns Co f. induction f as [|i exc k IHk r IHr]; intros tab rest Ca.
+  - exists tab. split; [assumption|]. cbn. now destruct (sym_events md tab rest).
+  - cbn [ievents iforest_syms events app]. set (fn := nth i fns dummy_func).
+    destruct (fsym_some md fn) as [sy Fs]. pose proof (nth_in_dummy i fns) as In1. fold fn in In1.
+    cbn [sym_events fe_kind fe_func]. fold (fsym md fn). rewrite Fs.
+    destruct (intern tab sy) as [[ta a1] sy1] eqn:I1.
+    destruct (intern_canon _ _ _ _ _ _ _ _ Co Ca In1 Fs I1) as [-> Ca1].
+    rewrite <- app_assoc. cbn [app].
+    destruct (IHk ta ({| fe_kind := if func_is_c fn then if exc then CException else CReturn else Return;
+                          fe_func := fn |} :: ievents fns r ++ rest) Ca1) as (tb & Cab & Ek).
+    rewrite Ek. cbn [sym_events fe_kind fe_func]. rewrite sym_of_exit, Fs.
+    destruct (intern tb sy) as [[tc a2] sy2] eqn:I2.
+    destruct (intern_canon _ _ _ _ _ _ _ _ Co Cab In1 Fs I2) as [-> Ca2].
+    destruct (IHr tc rest Ca2) as (td & Cad & Er). rewrite Er.
+    exists td. split; [assumption|].
+    destruct (sym_events md td rest) as [t2 es]. f_equal.
+    unfold entry_kind, exit_kind. cbn [l_c l_exc l_sym].
+    rewrite <- app_assoc. reflexivity.
+Qed.
+
+Lemma sym_events_forests : forall md fns, consistent md fns -> forall fs tab, canon md fns tab ->
+  exists tab1, sym_events md tab (flat_map (ievents fns) fs) =
+               (tab1, flat_map (fun f => events (iforest_syms md fns f)) fs).
+Proof.
+  intros md fns Co fs. induction fs as [|f fs IH]; intros tab Ca.
+  - exists tab. reflexivity.
+  - cbn [flat_map]. destruct (sym_events_ievents md fns Co f tab (flat_map (ievents fns) fs) Ca) as (t1 & C1 & E).
+    rewrite E. destruct (IH t1 C1) as (t2 & E2). rewrite E2. now exists t2.
+Qed.
+
+Lemma run_forests_fixed : forall c fs, c_fixed c = true ->
+  run c st0 (flat_map events fs) = (st0, select_all c fs).
+Proof.
+  intros c fs F. induction fs as [|f fs IH]; [reflexivity|].
+  cbn [flat_map select_all]. rewrite run_app, run_forest_fixed by assumption. now rewrite IH.
+Qed.
+
+Lemma depth_guard_forests : forall fns fs d rest,
+  depth_guard d (flat_map (ievents fns) fs ++ rest) = flat_map (ievents fns) fs ++ depth_guard d rest.
+Proof.
+  intros fns fs. induction fs as [|f fs IH]; intros d rest; [reflexivity|].
+  cbn [flat_map]. rewrite <- !app_assoc. now rewrite depth_guard_ievents, IH.
+Qed.
+
+(* The callback as a whole, on interpreter-level events: for every configuration, every sequence
+   of call forests over any table of functions whose names determine their symbols, followed by any
+   number of returns of frames that were never called (script ended by an exception): the state is
+   restored and the addresses handed to libmcount, resolved through the symbol table written at
+   exit, are exactly the traversal of the selected forests. *)
+Theorem trace_python_spec : forall c md fns fs rets,
+  c_fixed c = true -> consistent md fns -> returns_only rets = true ->
+  let '(tab, s, hs) := trace_python c md (flat_map (ievents fns) fs ++ rets) in
+  s = st0 /\ resolve_hooks tab hs = map Some (select_all c (map (iforest_syms md fns) fs)).
+Proof.
+  intros c md fns fs rets F Co R. unfold trace_python.
+  rewrite depth_guard_forests, (depth_guard_returns rets R), app_nil_r.
+  pose proof (arun_resolves c md (flat_map (ievents fns) fs) [] st0) as A.
+  destruct (arun c md [] st0 (flat_map (ievents fns) fs)) as [[tab s] hs].
+  assert (Ca : canon md fns []) by (intros s0 []).
+  destruct (sym_events_forests md fns Co fs [] Ca) as (t1 & E). rewrite E in A.
+  destruct A as (_ & _ & S & H).
+  assert (FM : flat_map (fun f => events (iforest_syms md fns f)) fs = flat_map events (map (iforest_syms md fns) fs)).
+  { clear. induction fs as [|f fs IH]; [reflexivity|]. cbn. now rewrite IH. }
+  rewrite FM, run_forests_fixed in S, H by assumption. cbn [fst snd] in *.
+  split; [assumption|]. specialize (H []). now rewrite app_nil_r in H.
+Qed.
+
+(* executable equalities are sound *)
+Lemma name_eqb_eq : forall a b, name_eqb a b = true -> a = b.
+Proof.
+  induction a as [|x a IH]; destruct b as [|y b]; cbn; intros H; try discriminate; [reflexivity|].
+  apply andb_prop in H as [H1 H2]. apply N.eqb_eq in H1. subst. f_equal. now apply IH.
+Qed.
+Lemma sym_eqb_eq : forall a b, sym_eqb a b = true -> a = b.
+Proof.
+  intros [n1 l1] [n2 l2] H. unfold sym_eqb in H. cbn in H. apply andb_prop in H as [H1 H2].
+  apply name_eqb_eq in H1. apply eqb_prop in H2. now subst.
+Qed.
+Lemma list_eqb_eq : forall {A} (eq : A -> A -> bool), (forall x y, eq x y = true -> x = y) ->
+  forall a b, list_eqb eq a b = true -> a = b.
+Proof.
+  intros A eq S. induction a as [|x a IH]; destruct b as [|y b]; cbn; intros H; try discriminate; [reflexivity|].
+  apply andb_prop in H as [H1 H2]. apply S in H1. subst. f_equal. now apply IH.
+Qed.
+Lemma ahook_eqb_eq : forall a b, ahook_eqb a b = true -> a = b.
+Proof. intros [x|] [y|] H; cbn in H; try discriminate; [apply N.eqb_eq in H; now subst|reflexivity]. Qed.
+
 (* ---------------------------------------------------------------- the run-time checker accepts the model *)
 (* names are compared with name_eqb; reflexivity of the executable equalities *)
 Lemma sym_eqb_refl : forall s, sym_eqb s s = true.
@@ -648,3 +846,47 @@ Lemma hook_eqb_refl : forall h, hook_eqb h h = true.
 Proof. intros [s|]; cbn; [apply sym_eqb_refl|reflexivity]. Qed.
 Lemma olist_eqb_map_some : forall hs, olist_eqb (map Some hs) hs = true.
 Proof. induction hs as [|h hs IH]; cbn; [reflexivity|]. now rewrite hook_eqb_refl, IH. Qed.
+
+Lemma consistentb_sound : forall md fns, consistentb md fns = true -> consistent md fns.
+Proof.
+  intros md fns H f g s t If Ig Fs Ft Nm. unfold consistentb in H.
+  rewrite forallb_forall in H. specialize (H f If). rewrite forallb_forall in H. specialize (H g Ig).
+  unfold fsym in *. rewrite Fs, Ft, Nm, name_eqb_refl in H. now apply sym_eqb_eq.
+Qed.
+
+(* non-vacuity: tests/s-abc.py as the interpreter presents it, -F a -N .getpid, then the two runpy returns *)
+Definition ex_main : name := str [47; 109; 47; 115; 46; 112; 121]%nat.     (* /m/s.py *)
+Definition ex_fns : list func :=
+  [PyF (Some n_main) nm_a ex_main; PyF (Some n_main) nm_b ex_main; PyF (Some n_main) nm_c ex_main;
+   CF (Some (str [112; 111; 115; 105; 120]%nat)) (str [103; 101; 116; 112; 105; 100]%nat);
+   PyF (Some (str [114; 117; 110; 112; 121]%nat)) (str [95; 114; 117; 110]%nat) (str [47; 117; 47; 114; 46; 112; 121]%nat)].
+Definition ex_forest : iforest := INode 0 false (INode 1 false (INode 2 false (INode 3 false INil INil) INil) INil) INil.
+Definition ex_rets : list fevent := [ {| fe_kind := Return; fe_func := nth 4 ex_fns dummy_func |} ].
+Example trace_python_example :
+  consistentb (Some (main_dir_of ex_main)) ex_fns = true /\ returns_only ex_rets = true /\
+  (let '(tab, s, hs) := trace_python (cfg_FN true) (Some (main_dir_of ex_main)) (ievents ex_fns ex_forest ++ ex_rets) in
+   hs = [AEnter 1; AEnter 2; AEnter 3; AExit; AExit; AExit] /\ length tab = 4%nat /\ s = st0).
+Proof. vm_compute. repeat split; reflexivity. Qed.
+
+(* the two judgements of a run agree: an implementation output that equals the model's is accepted
+   by the specification checker (for cases whose tail consists of stray returns only) *)
+Theorem checker_accepts_model : forall k,
+  consistent (option_map main_dir_of (k_pymain k)) (k_funcs k) ->
+  forallb (fun p => match fst p with Return => true | _ => false end) (k_raw k) = true ->
+  agrees k = true -> ok_case k = true.
+Proof.
+  intros k Co R A. unfold agrees in A. unfold ok_case.
+  set (c := mkcfg_pt (k_patt k) (k_env k) (k_lib k) true) in *.
+  set (md := option_map main_dir_of (k_pymain k)) in *.
+  assert (F : c_fixed c = true) by (unfold c, mkcfg_pt; destruct (init_filters_pt (k_patt k) (k_env k)); reflexivity).
+  unfold case_events in A.
+  set (rets := map (fun p => {| fe_kind := fst p; fe_func := nth (snd p) (k_funcs k) dummy_func |}) (k_raw k)) in *.
+  assert (Rr : returns_only rets = true).
+  { unfold rets, returns_only. clear -R. induction (k_raw k) as [|p l IH]; [reflexivity|].
+    cbn in *. apply andb_prop in R as [R1 R2]. rewrite R1. now apply IH. }
+  pose proof (trace_python_spec c md (k_funcs k) (k_forests k) rets F Co Rr) as T.
+  destruct (trace_python c md (flat_map (ievents (k_funcs k)) (k_forests k) ++ rets)) as [[tab s] hs].
+  destruct T as [_ T]. apply andb_prop in A as [A1 A2].
+  apply (list_eqb_eq _ ahook_eqb_eq) in A1. apply (list_eqb_eq _ sym_eqb_eq) in A2.
+  rewrite <- A1, <- A2, T. apply olist_eqb_map_some.
+Qed.
